@@ -34,6 +34,7 @@ static std::string g_errfile;
 static const Property *g_prop;
 static bool g_counting = true;     // false while shrinking
 static double g_shrink_deadline = 0;
+static double g_t_exec = 0, g_t_child_fork = 0;
 
 struct Outcome {
   Result r;
@@ -138,7 +139,7 @@ static Outcome exec_case(const Property *prop, const std::vector<uint32_t> *tape
   if (pid < 0) { close(fds[0]); close(fds[1]); out.r.verdict = INCONCLUSIVE; out.r.msg = "fork failed"; return out; }
   if (pid == 0) {
     close(fds[0]);
-    int efd = open(g_errfile.c_str(), O_WRONLY | O_CREAT | O_TRUNC, 0600);
+    int efd = getenv("QSX_DEBUG") ? -1 : open(g_errfile.c_str(), O_WRONLY | O_CREAT | O_TRUNC, 0600);
     if (efd >= 0) { dup2(efd, 2); close(efd); }
     int nfd = open("/dev/null", O_WRONLY);
     if (nfd >= 0) { dup2(nfd, 1); close(nfd); }
@@ -460,7 +461,9 @@ int main(int argc, char **argv) {
   auto body = [&](const std::vector<uint32_t> &tape) {
     if (g_counting && now_s() - t0 > budget) { budget_hit = true; return; }   // budget exhausted: stop judging
     if (!g_counting && now_s() > g_shrink_deadline) return;                  // shrink time exhausted
+    double te0 = now_s();
     Outcome o = exec_case(prop, &tape, nullptr);
+    g_t_exec += now_s() - te0;
     if (g_counting) account(o);
     if (o.r.verdict == DISCARD) RC_DISCARD("discarded");
     if (o.r.verdict == FAIL) {
@@ -487,9 +490,9 @@ int main(int argc, char **argv) {
   }
   double wall = now_s() - t0;
   if (opt.count("out")) write_stats(opt["out"], prop, seed, wall, failures);
-  printf("DONE property=%s variant=%s evaluations=%ld nontrivial=%zu fail=%ld known=%ld inconclusive=%ld discard=%ld budget_hit=%d wall=%.1f\n",
+  printf("DONE property=%s variant=%s evaluations=%ld nontrivial=%zu fail=%ld known=%ld inconclusive=%ld discard=%ld budget_hit=%d wall=%.1f exec=%.1f\n",
          prop->id, prop->variant, g_stats.evaluations, g_stats.distinct_nontrivial.size(), g_stats.fail, g_stats.known_hits,
-         g_stats.inconclusive, g_stats.discard, (int)budget_hit, wall);
+         g_stats.inconclusive, g_stats.discard, (int)budget_hit, wall, g_t_exec);
   fflush(stdout);
   unlink(g_errfile.c_str());
   clean_dir(scratch_dir());
